@@ -199,6 +199,66 @@ func TestC11_ClaimIdentityBindsFields(t *testing.T) {
 	})
 }
 
+// Two numeric fields changed together so that their decimal renderings, written one after the other, stay the same
+// (height 1002 / batch 3 -> height 100 / batch 23; also with a digit moving the other way): an identity that joins
+// fields without an unambiguous separator cannot tell such claims apart.
+func TestC11_DigitShiftBetweenNumericFields(t *testing.T) {
+	evid.Check(t, 20000, 200000, func(t *rapid.T) {
+		kind := rapid.IntRange(0, 2).Draw(t, "claimType")
+		base := c11NewClaim(kind)
+		c11Fill(t, base)
+		var nums []reflect.StructField
+		for _, f := range c11Fields(base) {
+			if f.Type.Kind() == reflect.Uint64 {
+				nums = append(nums, f)
+			}
+		}
+		if len(nums) < 2 {
+			t.Skip("fewer than two numeric fields")
+		}
+		i := rapid.IntRange(0, len(nums)-1).Draw(t, "first")
+		j := rapid.IntRange(0, len(nums)-2).Draw(t, "second")
+		if j >= i {
+			j++
+		}
+		f1, f2 := nums[i], nums[j]
+		rv := reflect.ValueOf(base).Elem()
+		// small values so that moving digits stays within uint64 and values stay positive
+		a := rapid.Uint64Range(10, 99_999_999).Draw(t, "a")
+		b := rapid.Uint64Range(1, 9_999_999).Draw(t, "b")
+		rv.FieldByName(f1.Name).SetUint(a)
+		rv.FieldByName(f2.Name).SetUint(b)
+		// move the last k digits of a to the front of b: str(a')+str(b') == str(a)+str(b)
+		sa, sb := fmt.Sprint(a), fmt.Sprint(b)
+		k := rapid.IntRange(1, len(sa)-1).Draw(t, "digitsMoved")
+		na, nb := sa[:len(sa)-k], sa[len(sa)-k:]+sb
+		if nb[0] == '0' {
+			t.Skip("shifted value would get a leading zero")
+		}
+		var a2, b2 uint64
+		fmt.Sscan(na, &a2)
+		fmt.Sscan(nb, &b2)
+		mut := c11Clone(base)
+		mv := reflect.ValueOf(mut).Elem()
+		mv.FieldByName(f1.Name).SetUint(a2)
+		mv.FieldByName(f2.Name).SetUint(b2)
+		if base.ValidateBasic() != nil || mut.ValidateBasic() != nil {
+			evid.Case(t.Name(), "rejected", false, []string{"rejectedStateless"}, nil)
+			return
+		}
+		same := c11Identity(base) == c11Identity(mut)
+		_, l1 := c11Listed[f1.Name]
+		_, l2 := c11Listed[f2.Name]
+		if same && (l1 || l2) {
+			t.Fatalf("%T: (%s, %s) = (%d, %d) and (%d, %d) share one tally identity: votes for claims with different effects are pooled", base, f1.Name, f2.Name, a, b, a2, b2)
+		}
+		label := fmt.Sprintf("%s.%s+%s", reflect.TypeOf(base).Elem().Name(), f1.Name, f2.Name)
+		evid.Case(t.Name(), fmt.Sprintf("%s (%d,%d)->(%d,%d)", label, a, b, a2, b2), l1 || l2, []string{label}, func() any {
+			return map[string]any{"type": fmt.Sprintf("%T", base), "fields": []string{f1.Name, f2.Name}, "from": []uint64{a, b}, "to": []uint64{a2, b2}, "identityChanged": !same}
+		})
+	})
+}
+
 // ---------------------------------------------------------------------------------------------------
 // differential for colliding pairs
 
@@ -283,7 +343,7 @@ func TestC11_CollidingClaimsSameEffect(t *testing.T) {
 		compass := "compass-1"
 		evA := rapid.Uint64Range(1, 1000).Draw(t, "eventNonceA")
 		evB := rapid.Uint64Range(1, 1000).Draw(t, "eventNonceB")
-		shape := rapid.SampledFrom([]string{"eventNonce", "eventNonce", "slashShift", "saleContract", "receiverCase", "saleContractCase", "tokenCase"}).Draw(t, "pairShape")
+		shape := rapid.SampledFrom([]string{"eventNonce", "eventNonce", "slashShift", "saleContract", "receiverCase", "saleContractCase", "tokenCase", "heightBatchDigitShift"}).Draw(t, "pairShape")
 		recvA, recvB, compA, compB := receiver, receiver, compass, compass
 		if shape == "slashShift" && kind == 0 {
 			// "<recv>/<compass>" ambiguity: ("p/q","compass-1") vs ("p","q/compass-1")
@@ -305,6 +365,15 @@ func TestC11_CollidingClaimsSameEffect(t *testing.T) {
 			tokB = c11FlipCase(t, tokA)
 			evB = evA
 		}
+		// executed-batch claims (height 7001, batch 1) and (height 700, batch 11): the decimal renderings of height and
+		// batch nonce written one after the other coincide; batch 1 is the open batch, batch 11 does not exist
+		heightA, heightB, batchA, batchB := uint64(700), uint64(700), uint64(1), uint64(1)
+		if shape == "heightBatchDigitShift" {
+			kind = 1
+			heightA, batchA = 7001, 1
+			heightB, batchB = 700, 11
+			evB = evA
+		}
 		client := chain.MkActor(salt + "/c11-client").Addr.String()
 		saleA := rapid.SampledFrom([]string{c11Sale, "0x00000000000000000000000000000000000000f8"}).Draw(t, "saleContract")
 		saleB := saleA
@@ -318,25 +387,25 @@ func TestC11_CollidingClaimsSameEffect(t *testing.T) {
 			saleA, saleB = c11Sale, c11FlipCase(t, c11Sale)
 			evB = evA
 		}
-		build := func(ev uint64, recv, comp string, saleAddr, tok string) func(e *c11Env, v *chain.Validator) sdk.Msg {
+		build := func(ev uint64, recv, comp string, saleAddr, tok string, height, batch uint64) func(e *c11Env, v *chain.Validator) sdk.Msg {
 			return func(e *c11Env, v *chain.Validator) sdk.Msg {
 				switch kind {
 				case 0:
-					return &skywaytypes.MsgSendToPalomaClaim{Metadata: chain.MD(v.Actor), Orchestrator: v.Addr.String(), EventNonce: ev, SkywayNonce: 1, EthBlockHeight: 700, TokenContract: tok,
+					return &skywaytypes.MsgSendToPalomaClaim{Metadata: chain.MD(v.Actor), Orchestrator: v.Addr.String(), EventNonce: ev, SkywayNonce: 1, EthBlockHeight: height, TokenContract: tok,
 						Amount: sdkmath.NewInt(55), EthereumSender: "0x00000000000000000000000000000000000000b1", PalomaReceiver: recv, ChainReferenceId: c11Chain, CompassId: comp}
 				case 1:
-					return &skywaytypes.MsgBatchSendToRemoteClaim{Metadata: chain.MD(v.Actor), Orchestrator: v.Addr.String(), EventNonce: ev, SkywayNonce: 1, EthBlockHeight: 700, BatchNonce: 1, TokenContract: tok,
+					return &skywaytypes.MsgBatchSendToRemoteClaim{Metadata: chain.MD(v.Actor), Orchestrator: v.Addr.String(), EventNonce: ev, SkywayNonce: 1, EthBlockHeight: height, BatchNonce: batch, TokenContract: tok,
 						ChainReferenceId: c11Chain, CompassId: comp}
 				default:
-					return &skywaytypes.MsgLightNodeSaleClaim{Metadata: chain.MD(v.Actor), Orchestrator: v.Addr.String(), EventNonce: ev, SkywayNonce: 1, EthBlockHeight: 700, ChainReferenceId: c11Chain,
+					return &skywaytypes.MsgLightNodeSaleClaim{Metadata: chain.MD(v.Actor), Orchestrator: v.Addr.String(), EventNonce: ev, SkywayNonce: 1, EthBlockHeight: height, ChainReferenceId: c11Chain,
 						ClientAddress: client, Amount: sdkmath.NewInt(3), SmartContractAddress: saleAddr, CompassId: comp}
 				}
 			}
 		}
 		dummy := &c11Env{}
 		v0 := &chain.Validator{Actor: chain.MkActor("c11-dummy")}
-		ca := build(evA, recvA, compA, saleA, tokA)(dummy, v0).(skywaytypes.EthereumClaim)
-		cb := build(evB, recvB, compB, saleB, tokB)(dummy, v0).(skywaytypes.EthereumClaim)
+		ca := build(evA, recvA, compA, saleA, tokA, heightA, batchA)(dummy, v0).(skywaytypes.EthereumClaim)
+		cb := build(evB, recvB, compB, saleB, tokB, heightB, batchB)(dummy, v0).(skywaytypes.EthereumClaim)
 		if ca.ValidateBasic() != nil || cb.ValidateBasic() != nil {
 			// a claim that fails its stateless validation can never be voted for: nothing can be pooled with it
 			evid.Case(t.Name(), fmt.Sprintf("rejected kind=%d %s", kind, shape), false, []string{fmt.Sprintf("rejectedStateless/type%d/%s", kind, shape)}, nil)
@@ -347,8 +416,8 @@ func TestC11_CollidingClaimsSameEffect(t *testing.T) {
 			evid.Case(t.Name(), fmt.Sprintf("nocollision kind=%d %s", kind, shape), false, []string{fmt.Sprintf("noCollision/type%d/%s", kind, shape)}, nil)
 			return
 		}
-		accA, digA := c11Drive(t, salt, build(evA, recvA, compA, saleA, tokA))
-		accB, digB := c11Drive(t, salt, build(evB, recvB, compB, saleB, tokB))
+		accA, digA := c11Drive(t, salt, build(evA, recvA, compA, saleA, tokA, heightA, batchA))
+		accB, digB := c11Drive(t, salt, build(evB, recvB, compB, saleB, tokB, heightB, batchB))
 		if accA != accB {
 			t.Fatalf("claims with the same tally identity differ in acceptance: %d vs %d votes accepted\n A=%v\n B=%v", accA, accB, ca, cb)
 		}
